@@ -24,7 +24,7 @@ def gen_attrs(rng, w, rich=True):
     attrs = []
     for _ in range(rng.choice([0, 0, 1, 1, 2, 3] * 5 + [6, 9, 14])):
         w.add(rng.choice([' ', ' ', '  ', '\n', '\t']))
-        kind = rng.choice(['dq', 'dq', 'sq', 'unq', 'bool', 'expr', 'ng', 'class', 'class'])
+        kind = rng.choice(['dq', 'dq', 'sq', 'unq', 'bool', 'expr', 'ng', 'class', 'class', 'angle'])
         name = rng.choice(['id', 'data-x', 'href', 'title', ':bind', 'v-on:click', 'aria-label', 'xml:lang', '_x', 'a.b', 'data-type', ':type', 'xtype', 'src'])
         if kind == 'ng':
             name = rng.choice(['*ngIf', '#ref', '[prop]', '(click)', '{...p}', '[(ngModel)]', '*'])
@@ -33,6 +33,13 @@ def gen_attrs(rng, w, rich=True):
                 kind = 'bool'
         if kind == 'class':
             name = 'class'
+        if kind == 'angle':
+            # template expressions and generics: a <...> pair is one attribute name or value, also when glued to the tag's own >
+            if rng.random() < 0.5:
+                name = rng.choice(['<?= $sel ?>', '<%= x %>', '<Row>', '<?php echo "a" ?>'])
+                kind = 'bool'
+            else:
+                kind = 'anglevalue'
         ns, ne = w.add(name)
         val = None
         vs = ve = None
@@ -47,6 +54,8 @@ def gen_attrs(rng, w, rich=True):
                 val = '"%s"' % rng.choice(['a > b', '', 'x/y', '</div>', '<b>', "it's", 'a=b c', ' ', '/>', 'é ü', '{x}', '-->', '/a.js?type=min', 'text/x-template', 'type=text/html'])
             elif kind == 'sq':
                 val = "'%s'" % rng.choice(['a>b', '"', '', 'x y', '</p>', '<!--'])
+            elif kind == 'anglevalue':
+                val = rng.choice(['<%= cls %>', '<?php echo 1 ?>', '<b c>', '<T>'])
             elif kind == 'unq':
                 val = rng.choice(['abc', 'a-b', 'x:y', '1', 'a.b', '#x', 'a=b', '{{x}}', 'a&b', 'foo[0]'])
             else:
